@@ -13,7 +13,7 @@ for d in sorted(glob.glob("/tmp/wt*-C*/MUTANT_*")):
     e = json.load(open(ev))
     wt = os.path.basename(os.path.dirname(d))
     prop = wt.split("-")[1]
-    rnd = "2" if wt.startswith("wt2") else ("3" if wt.startswith("wt3") else "")
+    rnd = wt[2] if wt[2].isdigit() else ""  # wt-C01 -> round 1 (no prefix), wt2-C01 -> "2", ... wt5-C01 -> "5"
     mid = f"{prop}-{rnd}{os.path.basename(d).replace('MUTANT_', '')}"
     ok_demo = e.get("demo_on_clean_tree") == "passes" and e.get("demo_with_change") == "fails"
     ok_suite = e.get("existing_suite_ok")
@@ -22,6 +22,8 @@ for d in sorted(glob.glob("/tmp/wt*-C*/MUTANT_*")):
     if status != "confirmed":
         continue
     out = f"/verif/seeded/{mid}"
+    if os.path.exists(os.path.join(out, "meta.json")):
+        continue  # collected before (its meta.json may already hold the final detection result)
     os.makedirs(out, exist_ok=True)
     for f in ("patch.diff", "demo.diff"):
         if os.path.exists(os.path.join(d, f)):
